@@ -25,6 +25,7 @@ import (
 	"strings"
 
 	"github.com/danos/mgmterror"
+	"github.com/danos/utils/pathutil"
 	"github.com/sdcio/yang-parser/data/datanode"
 	"github.com/sdcio/yang-parser/schema"
 )
@@ -180,6 +181,7 @@ func convertToDataNode(path []string, name string, node unserialized, sn schema.
 			return nil, err
 		}
 		children = make([]datanode.DataNode, len(ukids), len(ukids))
+		entries := make(map[string]bool)
 		for i, ch := range ukids {
 			csn := sn.Child(ch.name())
 			if csn == nil {
@@ -189,6 +191,15 @@ func convertToDataNode(path []string, name string, node unserialized, sn schema.
 			childName, err := getChildName(path, ch, csn)
 			if err != nil {
 				return nil, err
+			}
+			if _, isEntry := csn.(schema.ListEntry); isEntry {
+				// The entries of a list are told apart by their key
+				if entries[childName] {
+					err := mgmterror.NewTooManyElementsError(childName)
+					err.Path = pathutil.Pathstr(path)
+					return nil, err
+				}
+				entries[childName] = true
 			}
 
 			// Construct child path correctly for list case
